@@ -39,8 +39,8 @@ from . import dyncommon
 ID = "C14"
 LEVEL = "fault_enumeration"
 TECHNIQUE = "deterministic simulation with fault injection: seeded operation+fault histories in one process vs fresh-forked-process reference and state-at-rest invariants"
-BUDGET = {"quick": (3000, 60), "thorough": (300000, 1500)}
-CHUNK = 3
+BUDGET = {"quick": (3000, 50), "thorough": (300000, 1500)}
+CHUNK = 1
 MAX_WORKERS = 4  # fork-heavy runs do not scale beyond ~4 parallel workers in this sandbox (measured)
 SHRINK_BUDGET = 80  # one history costs ~4 forks
 SHRINK_SECONDS = 60
